@@ -8,3 +8,5 @@ def check(rep, tier):
     rep.run(core_rules.run, rep, tier)
     rep.run(tracer_trace.run, rep, tier, only=("NB-typeerror",))
     rep.run(diffops.run_ops, rep, tier)
+    from contracts import rules_numeric
+    rep.run(rules_numeric.run, rep, tier, clauses=("N-vjp", "N-jvp"))   # option coverage: an option that is accepted must be differentiated correctly
